@@ -240,15 +240,15 @@ ADDENDA = {
            "virtual leg that absorbs the total charge of a site tensor is the first one. Round 4: sums over member environments count each member once; numpy scalars reach __mul__ unchanged.",
     "C08": "Also: the discarded weights are composed so that kept weights multiply (inductive polynomial invariant, any spelling); canonize_ "
            "absorbs a central block before every orthogonalize_site_ (typestate on the CFG). Floating-point cancellation in an algebraically "
-           "identical composition is NOT decided. Round 4: orthogonalize_site_/diagonalize_central_ reset the factor for normalize=True and accumulate for normalize=False (per value of the knob); documented defaults equal signature defaults. Round 5: entropy cut-off on normalised probabilities (P5); every normalising division protected against a zero norm on every path (P6).",
+           "identical composition is NOT decided. Round 4: orthogonalize_site_/diagonalize_central_ reset the factor for normalize=True and accumulate for normalize=False (per value of the knob); documented defaults equal signature defaults. Round 5: entropy cut-off on normalised probabilities (P5); every normalising division protected against a zero norm on every path (P6). The discarded weight is accumulated itself, not as the complement of a running product (FF5 representation clause: cancellation).",
     "C09": "Also: every Heff sibling carries the operator's factor on every path; the local eigenproblem is solved for which='SR' for every "
            "option set (defaults of dmrg_ and of eigs); the maps handed to eigs are homogeneous in their argument. Round 4: the norm factor of the input is reset on every path to the construction of the environment. Round 5: per-item defaults are per item (U15).",
     "C10": "Also: the local generators handed to expmv are homogeneous in their argument (no affine term); composition constants written as "
-           "expressions are evaluated numerically. Round 4: the sweep call that samples H(t) receives the environment through the reset in the same call (per sub-step).",
+           "expressions are evaluated numerically. Round 4: the sweep call that samples H(t) receives the environment through the reset in the same call (per sub-step). enlarge_bond compares the dimension of the bond, not of the grouped leg, with D_total (T7, opportunistic).",
     "C13": "Also: the relative tolerance refers to the maximum of the very values compared; selection by comparison with the K-th largest "
            "value (ties) is a violation; a dict-valued per-sector limit of the partial-SVD policies is looked up by a key depending on the "
            "same options (nU, sU) as the S-sector charges; K == 0 protection is decided on the CFG. Round 4: the spectrum masked and returned by the wrappers is the one the decomposition computed; every sector passes the computation of its keep-count in the per-block stage. Round 5: shortcut returns of the mask functions decided by both global limits (D11).",
-    "C14": "Also: parallel per-block sequences narrowed by the same selection (seqsel), converse of I2, inverse-permutation typing. Round 4: the resize/clear/info tables pair every kernel with itself (K4); no break directly behind an inner search loop that has none; the who-must-read rule I9. Round 5: SlicedLeg normalises slice keys like charges (N9).",
+    "C14": "Also: parallel per-block sequences narrowed by the same selection (seqsel), converse of I2, inverse-permutation typing. Round 4: the resize/clear/info tables pair every kernel with itself (K4); no break directly behind an inner search loop that has none; the who-must-read rule I9. Round 5: SlicedLeg normalises slice keys like charges (N9). The all-pairs index lists of the no-fusion kernel use complementary broadcasts (N10); contiguity scans of the no-change fast paths are closed by a comparison with the total (N11).",
     "C15": "Also: library calls allowed to overwrite their operand (scipy overwrite_a/overwrite_b=True) count as writes into that operand. "
            "Round 4: the PEPS environments stay outside the interprocedural summaries (DESIGN 9.9), but M6 holds helpers that are called from "
            "them with the caller's own parameter to M1, M7 holds the DIRECT writes of the environments' public value-returning operations to the "
